@@ -588,6 +588,8 @@ func main() {
 	cfg := flag.String("cfg", "101111", "model configuration bits (see lean/Driver/Env.lean)")
 	budget := flag.Int("budget", 0, "seconds for the program loop (0 = tier default)")
 	decideFlag := flag.String("decide", "fixed", "which diffEnv the tree has: old | d16 | fixed")
+	modeFlag := flag.String("mode", "", "reason: only the ground-truth judge of rebuild reasons (property C16)")
+	reasonReplayFlag := flag.String("reason-replay", "", "json {case} of the reason stream")
 	kindsFlag := flag.String("kinds", "", "comma separated unit kinds: judge one program made of exactly these units")
 	flag.Parse()
 
@@ -607,6 +609,19 @@ func main() {
 		defer os.RemoveAll(*scratch)
 	}
 	timeout := 90 * time.Second
+
+	if *modeFlag == "reason" || *reasonReplayFlag != "" {
+		if *reasonReplayFlag != "" {
+			reasonReplay(*reasonReplayFlag, *scratch)
+		} else {
+			reasonMode(*seed, *tier, *scratch)
+		}
+		outMu.Lock()
+		b, _ := json.Marshal(map[string]any{"counts": stats, "histograms": hists})
+		fmt.Fprintf(out, "S\t%s\n", b)
+		outMu.Unlock()
+		return
+	}
 
 	if *replay != "" {
 		var c caseInput
